@@ -13,12 +13,19 @@ always consulted "as seen from the receiving edge's own direction".  Partial: th
 (no Möbius-like family) is a hypothesis — decided per generated case by the harness, which skips non-orientable
 families; that the expansion oracle itself realises the preserved size at that end is checked on the written file
 (`hex:preserved-size-not-realised-at-the-same-end`).
+Round 6: on the composed model M-PROP ∘ M-CALC (`Model/C04Chop.lean`: counts, preserved quantities and expansions
+computed by C03's calculator from the chop arguments and the wire lengths) the `preserve` clause is a theorem for the
+whole family: `T_C04_c2c_wire`, `T_C04_start_wire`, `T_C04_end_wire` (what the calculator returns for the preserving
+copy on any wire), `T_C04_preserved_start_family` / `_end_family` (with the parity theorem: the size sits at the
+end that is the start / end in the orientation of the direction the user chopped), `T_C04_src`, `T_C04_own_computed`.
 -/
 import CBV.Props.C01
 import CBV.Lemmas.C04Desc
 import CBV.Lemmas.C04Parity
+import CBV.Lemmas.C04Chop
 
 namespace CBV.Prop
+open CBV.C03 (Vals Q Oracle Tol calculate firstCell lastCell TOL absR)
 
 /-- shared edges: same sections when aligned, the inverted sections otherwise (to the tolerance of
     `Grading.__eq__`) -/
@@ -128,6 +135,173 @@ theorem specEq_length : ∀ (s t : Spec), specEq s t = true → s.length = t.len
   | [], _ :: _, h => by simp [specEq] at h
   | _ :: _, [], h => by simp [specEq] at h
 
+/-! ### round 6: the chop calculator inside the model (M-PROP ∘ M-CALC, `Model/C04Chop.lean`) -/
+
+/-- the direction a user chop was placed on -/
+def srcOf (g : Geo) (id : Nat) : Nat := ((g.uchops[id]?).map (·.x)).getD 0
+
+/-- the chops the composed model starts from are un-inverted and their ids name the chopped direction: the hypothesis
+    `Src` of `T_C04_parity` holds for every input of the composed model -/
+theorem T_C04_src (g : Geo) : Src (toInp g) (srcOf g) := by
+  intro y c hc
+  by_cases hy : y < 3 * g.nBlocks
+  · rw [toInp_chops g hy] at hc
+    obtain ⟨hi, _, u, hu, hx, _⟩ := chopsOn_mem hc
+    exact ⟨hi, by simp [srcOf, hu, hx]⟩
+  · exfalso
+    have : (toInp g).chops y = [] := by
+      show Array.getD _ y [] = []
+      simp [Array.getD, hy]
+    rw [this] at hc
+    cases hc
+
+/-- a chopped direction of the composed model: each of its four edges carries, per user chop, the length ratio typed
+    by the user, the count the calculator resolved on the average length, and the expansion the calculator yields for
+    the preserving copy on that edge's own length -/
+theorem T_C04_own_computed (g : Geo) (st : St) (h : run (toInp g) = .ok st) (x : Nat) (hx : x < 3 * g.nBlocks)
+    (hu : userChopped (toInp g) x = true) :
+    ∀ w ∈ axisWires x,
+      specOf st w = (chopsOn g x).map (fun c => (⟨c.ratio, countOf g c.id, evG g c.id false w⟩ : Sec)) := by
+  intro w hw
+  rw [T_C04_own (toInp g) st h x hx hu w hw, toInp_chops g hx, toInp_ev]
+  apply List.map_congr_left
+  intro c hc
+  obtain ⟨hi, hn, _⟩ := chopsOn_mem hc
+  rw [hi, hn]
+
+/-- `preserve = c2c_expansion` (the default): on every wire, of whatever length, in whichever block the chop arrives,
+    the calculator returns the resolved count and the total expansion `c^(n-1)` — the reciprocal when the chop was
+    inverted on the way.  No solver, no oracle: the model computes it. -/
+theorem T_C04_c2c_wire (g : Geo) (id : Nat) (u : UChop) (res : Vals) (n : ℕ) (c : ℚ)
+    (hu : g.uchops[id]? = some u) (hp : u.preserve = .c2c) (hr : resolved g id = .ok res)
+    (hn : res.count = some n) (hn1 : 1 ≤ n) (hc : res.c2c = some c) (hc0 : c ≠ 0) (inv : Bool) (w : Nat) (v : Vals)
+    (h : wireVals g id inv w = .ok v) :
+    v.count = some n ∧ v.total = some (if inv then 1 / c ^ (n - 1) else c ^ (n - 1)) := by
+  obtain ⟨h0, h1⟩ := held_c2c hu hp hr hn hn1 hc hc0
+  have hcp := (C03.T_C03_copy_preserving (ob := obOf u res) rfl hp hn hn1 hc hc0).2.2
+  cases inv with
+  | false =>
+    rw [wireVals_eq hu h0] at h
+    obtain ⟨_, _, hcalc⟩ := evalOn_ok h
+    simpa using (hcp _ _ _ v).1 hcalc
+  | true =>
+    rw [wireVals_eq hu h1] at h
+    obtain ⟨_, _, hcalc⟩ := evalOn_ok h
+    simpa using (hcp _ _ _ v).2 hcalc
+
+/-- hence the expansion M-PROP receives for such a chop does not depend on the wire -/
+theorem T_C04_c2c_same_on_all_wires (g : Geo) (id : Nat) (u : UChop) (res : Vals) (n : ℕ) (c : ℚ)
+    (hu : g.uchops[id]? = some u) (hp : u.preserve = .c2c) (hr : resolved g id = .ok res)
+    (hn : res.count = some n) (hn1 : 1 ≤ n) (hc : res.c2c = some c) (hc0 : c ≠ 0) (inv : Bool) (w w' : Nat) (v v' : Vals)
+    (h : wireVals g id inv w = .ok v) (h' : wireVals g id inv w' = .ok v') :
+    evG g id inv w = evG g id inv w' := by
+  have a := (T_C04_c2c_wire g id u res n c hu hp hr hn hn1 hc hc0 inv w v h).2
+  have b := (T_C04_c2c_wire g id u res n c hu hp hr hn hn1 hc hc0 inv w' v' h').2
+  unfold evG totalOr0
+  rw [h, h']
+  simp only [a, b]
+
+/-- `preserve = start_size`: on every wire the chop reaches un-inverted the calculator keeps the resolved count and
+    start size, and the ratio it returns lays the first cell out with exactly that size on *this* wire's length
+    (single cells and the near-uniform branch excepted, as in C03); on every wire it reaches inverted, the size is the
+    end size and the *last* cell has it.  Exact tolerance; for every solver answer that meets its specification. -/
+theorem T_C04_start_wire (g : Geo) (hT : g.tol = C03.T0) (id : Nat) (u : UChop) (res : Vals) (n : ℕ) (s : ℚ)
+    (hu : g.uchops[id]? = some u) (hp : u.preserve = .start) (hr : resolved g id = .ok res)
+    (hn : res.count = some n) (hn1 : 1 ≤ n) (hs : res.start = some s) (w : Nat) (v : Vals) :
+    (wireVals g id false w = .ok v →
+      v.count = some n ∧ v.start = some s ∧ ∃ c, v.c2c = some c ∧ 0 < c ∧ v.total = some (c ^ (n - 1)) ∧
+        ((n = 1 ∧ c = 1) ∨ (2 ≤ n ∧ absR (n * s - g.len w * u.ratio) / (g.len w * u.ratio) < TOL ∧ c = 1) ∨
+         (2 ≤ n ∧ firstCell (g.len w * u.ratio) n c = s))) ∧
+    (wireVals g id true w = .ok v →
+      v.count = some n ∧ v.end_ = some s ∧ ∃ c, v.c2c = some c ∧ 0 < c ∧ v.total = some (c ^ (n - 1)) ∧
+        ((absR (n * s - g.len w * u.ratio) / (g.len w * u.ratio) < TOL ∧ c = 1) ∨
+         (2 ≤ n ∧ lastCell (g.len w * u.ratio) n c = s))) := by
+  obtain ⟨h0, h1⟩ := held_start hu hp hr hn hn1 hs
+  constructor
+  · intro h
+    rw [wireVals_eq hu h0, hT] at h
+    obtain ⟨_, _, hcalc⟩ := evalOn_ok h
+    obtain ⟨a1, _, _, _, _, c, a6, a7, a8, _, a10⟩ := C03.T_C03_pair_count_start hcalc
+    obtain ⟨_, _, _, _, _, _, rfl⟩ := C03.pair_count_start hcalc
+    exact ⟨a1, rfl, c, a6, a7, a8, a10⟩
+  · intro h
+    rw [wireVals_eq hu h1, hT] at h
+    obtain ⟨_, _, hcalc⟩ := evalOn_ok h
+    obtain ⟨a1, _, _, _, c, a6, a7, a8, _, a10⟩ := C03.T_C03_pair_count_end hcalc
+    obtain ⟨_, _, _, _, _, _, rfl⟩ := C03.pair_count_end hcalc
+    exact ⟨a1, rfl, c, a6, a7, a8, a10⟩
+
+/-- `preserve = end_size`: the mirror image -/
+theorem T_C04_end_wire (g : Geo) (hT : g.tol = C03.T0) (id : Nat) (u : UChop) (res : Vals) (n : ℕ) (e : ℚ)
+    (hu : g.uchops[id]? = some u) (hp : u.preserve = .end_) (hr : resolved g id = .ok res)
+    (hn : res.count = some n) (hn1 : 1 ≤ n) (he : res.end_ = some e) (w : Nat) (v : Vals) :
+    (wireVals g id false w = .ok v →
+      v.count = some n ∧ v.end_ = some e ∧ ∃ c, v.c2c = some c ∧ 0 < c ∧ v.total = some (c ^ (n - 1)) ∧
+        ((absR (n * e - g.len w * u.ratio) / (g.len w * u.ratio) < TOL ∧ c = 1) ∨
+         (2 ≤ n ∧ lastCell (g.len w * u.ratio) n c = e))) ∧
+    (wireVals g id true w = .ok v →
+      v.count = some n ∧ v.start = some e ∧ ∃ c, v.c2c = some c ∧ 0 < c ∧ v.total = some (c ^ (n - 1)) ∧
+        ((n = 1 ∧ c = 1) ∨ (2 ≤ n ∧ absR (n * e - g.len w * u.ratio) / (g.len w * u.ratio) < TOL ∧ c = 1) ∨
+         (2 ≤ n ∧ firstCell (g.len w * u.ratio) n c = e))) := by
+  obtain ⟨h0, h1⟩ := held_end hu hp hr hn hn1 he
+  constructor
+  · intro h
+    rw [wireVals_eq hu h0, hT] at h
+    obtain ⟨_, _, hcalc⟩ := evalOn_ok h
+    obtain ⟨a1, _, _, _, c, a6, a7, a8, _, a10⟩ := C03.T_C03_pair_count_end hcalc
+    obtain ⟨_, _, _, _, _, _, rfl⟩ := C03.pair_count_end hcalc
+    exact ⟨a1, rfl, c, a6, a7, a8, a10⟩
+  · intro h
+    rw [wireVals_eq hu h1, hT] at h
+    obtain ⟨_, _, hcalc⟩ := evalOn_ok h
+    obtain ⟨a1, _, _, _, _, c, a6, a7, a8, _, a10⟩ := C03.T_C03_pair_count_start hcalc
+    obtain ⟨_, _, _, _, _, _, rfl⟩ := C03.pair_count_start hcalc
+    exact ⟨a1, rfl, c, a6, a7, a8, a10⟩
+
+/-- C04's `preserve` clause on the composed model, for the whole family and every schedule: when the block directions
+    are oriented coherently (`o`), every chop any direction `x` holds at the end of a successful `Mesh.grade` — its own or
+    received through any chain of aligned / anti-aligned neighbours — evaluated on any wire `w`, has the preserved
+    start size of the user's chop at the end of `w` that is the *start in the orientation of the direction the user
+    chopped*: the start of `w` when `x` is oriented like that direction, the end of `w` when it is oriented against it. -/
+theorem T_C04_preserved_start_family (g : Geo) (st : St) (h : run (toInp g) = .ok st)
+    (o : Nat → Bool) (hc : WireCoh (toInp g) o) (x : Nat) (hx : x < 3 * g.nBlocks) (c : Chop) (hcx : c ∈ chopsOf st x)
+    (u : UChop) (res : Vals) (n : ℕ) (s : ℚ) (hu : g.uchops[c.id]? = some u) (hp : u.preserve = .start)
+    (hr : resolved g c.id = .ok res) (hn : res.count = some n) (hn1 : 1 ≤ n) (hs : res.start = some s)
+    (hT : g.tol = C03.T0) (w : Nat) (v : Vals) (hv : wireVals g c.id c.inv w = .ok v) :
+    v.count = some n ∧ (if o x = o (srcOf g c.id) then v.start = some s else v.end_ = some s) := by
+  have hpar := T_C04_parity (toInp g) st h o (srcOf g) hc (T_C04_src g) x (by simpa [toInp_nBlocks] using hx) c hcx
+  have hw := T_C04_start_wire g hT c.id u res n s hu hp hr hn hn1 hs w v
+  by_cases e : o x = o (srcOf g c.id)
+  · have hi : c.inv = false := by rw [hpar, e]; simp
+    rw [hi] at hv
+    obtain ⟨a, b, _⟩ := hw.1 hv
+    exact ⟨a, by simp [e, b]⟩
+  · have hi : c.inv = true := by
+      rw [hpar]; cases h1 : o x <;> cases h2 : o (srcOf g c.id) <;> simp_all
+    rw [hi] at hv
+    obtain ⟨a, b, _⟩ := hw.2 hv
+    exact ⟨a, by simp [e, b]⟩
+
+/-- the same for a preserved end size -/
+theorem T_C04_preserved_end_family (g : Geo) (st : St) (h : run (toInp g) = .ok st)
+    (o : Nat → Bool) (hc : WireCoh (toInp g) o) (x : Nat) (hx : x < 3 * g.nBlocks) (c : Chop) (hcx : c ∈ chopsOf st x)
+    (u : UChop) (res : Vals) (n : ℕ) (e : ℚ) (hu : g.uchops[c.id]? = some u) (hp : u.preserve = .end_)
+    (hr : resolved g c.id = .ok res) (hn : res.count = some n) (hn1 : 1 ≤ n) (he : res.end_ = some e)
+    (hT : g.tol = C03.T0) (w : Nat) (v : Vals) (hv : wireVals g c.id c.inv w = .ok v) :
+    v.count = some n ∧ (if o x = o (srcOf g c.id) then v.end_ = some e else v.start = some e) := by
+  have hpar := T_C04_parity (toInp g) st h o (srcOf g) hc (T_C04_src g) x (by simpa [toInp_nBlocks] using hx) c hcx
+  have hw := T_C04_end_wire g hT c.id u res n e hu hp hr hn hn1 he w v
+  by_cases eo : o x = o (srcOf g c.id)
+  · have hi : c.inv = false := by rw [hpar, eo]; simp
+    rw [hi] at hv
+    obtain ⟨a, b, _⟩ := hw.1 hv
+    exact ⟨a, by simp [eo, b]⟩
+  · have hi : c.inv = true := by
+      rw [hpar]; cases h1 : o x <;> cases h2 : o (srcOf g c.id) <;> simp_all
+    rw [hi] at hv
+    obtain ⟨a, b, _⟩ := hw.2 hv
+    exact ⟨a, by simp [eo, b]⟩
+
 end CBV.Prop
 
 namespace CBV.Prop.Examples
@@ -155,5 +329,47 @@ example : Src (twoBoxes 5 0) (fun id => id) := by
     have h2 : y ≠ 2 := by omega
     have h3 : y ≠ 3 := by omega
     simp [twoBoxes, h0, h1, h2, h3] at hc
+
+/-! round 6: the composed model -/
+
+/-- two boxes side by side in x (as `twoBoxes`), block 0 chopped in all directions, block 1 in x only; the y chop of
+    block 0 is `count = 4, c2c_expansion = 2, preserve = "start_size"`; edge lengths 1, except the two y edges of
+    block 1 that are not shared (wires 17, 18): 8/3.  The only solver answers needed are the roots of
+    `s (1 + c + c² + c³) = L` for `s = 1/15`: `c = 2` on length 1, `c = 3` on length 8/3. -/
+def twoBoxesG : Geo where
+  nBlocks := 2
+  verts := [[0, 1, 2, 3, 4, 5, 6, 7], [1, 8, 9, 2, 5, 10, 11, 6]]
+  len := fun w => if w = 17 ∨ w = 18 then 8 / 3 else 1
+  uchops := [⟨0, 1, { count := some 4, c2c := some 1 }, .c2c⟩, ⟨1, 1, { count := some 4, c2c := some 2 }, .start⟩,
+             ⟨2, 1, { count := some 3, c2c := some 1 }, .c2c⟩, ⟨3, 1, { count := some 2, c2c := some 1 }, .c2c⟩]
+  tol := {}
+  oa := fun _ => {}
+  ow := fun id _ w => if id = 1 then (if w = 17 ∨ w = 18 then { c2c := some 3 } else { c2c := some 2 }) else {}
+
+/-- the composed model runs on it: block 1 receives its y and z counts, … -/
+example : (match runG twoBoxesG with
+    | .ok st => (List.range 6).map (writtenCount (toInp twoBoxesG) st)
+    | .error _ => []) = [4, 4, 3, 2, 4, 3] := by decide +kernel
+
+/-- … the y direction of block 1 (axis 4) holds the user's chop 1, un-inverted; the calculator resolved it to 4 cells with
+    first cell 1/15; on the long edge 17 the preserved first cell 1/15 is kept and the expansion is 27 instead of 8:
+    the hypotheses of `T_C04_start_wire` / `T_C04_preserved_start_family` hold here (with `o = fun _ => false`) -/
+example : (match run (toInp twoBoxesG) with
+    | .ok st => (chopsOf st 4).map (fun c => (c.id, c.inv))
+    | .error _ => []) = [(1, false)] ∧
+    (resolved twoBoxesG 1).toOption.map (fun r => (r.count, r.start)) = some (some 4, some (1 / 15)) ∧
+    (wireVals twoBoxesG 1 false 17).toOption.map (fun v => (v.start, v.total)) = some (some (1 / 15), some 27) ∧
+    (wireVals twoBoxesG 1 false 16).toOption.map (fun v => (v.start, v.total)) = some (some (1 / 15), some 8) := by
+  decide +kernel
+
+example : WireCoh (toInp twoBoxesG) (fun _ => false) :=
+  wireCoh_of_check _ _ (by decide +kernel)
+
+/-- non-vacuity of `T_C04_c2c_wire`: chop 2 (`count = 3`, the default `preserve`) resolves with ratio 1 -/
+example : (resolved twoBoxesG 2).toOption.map (fun r => (r.count, r.c2c)) = some (some 3, some 1) ∧
+    (wireVals twoBoxesG 2 false 20).toOption.map (fun v => v.total) = some (some 1) := by decide +kernel
+
+/-- `T_C04_own_computed`: axis 1 is user-chopped in the composed input -/
+example : userChopped (toInp twoBoxesG) 1 = true := by decide +kernel
 
 end CBV.Prop.Examples
